@@ -20,10 +20,12 @@ import sched
 import treeutil
 
 ID = 'C01'
-LEAN_MODULES = ['Yaql.Props.C01', 'Yaql.Props.C01Gen']
+LEAN_MODULES = ['Yaql.Props.C01', 'Yaql.Props.C01Gen', 'Yaql.Props.C01Rules']
 REQUIRED_THEOREMS = ['Yaql.Props.C01.perCall_isolated', 'Yaql.Props.C01.sequential_reuse',
                      'Yaql.Props.C01.shared_not_isolated', 'Yaql.Props.C01.done_absorbing',
-                     'Yaql.Props.C01Gen.engine_mode', 'Yaql.Props.C01Gen.current_engine_isolated']
+                     'Yaql.Props.C01Gen.engine_mode', 'Yaql.Props.C01Gen.current_engine_isolated',
+                     'Yaql.Props.C01Rules.rules_blind_isolated', 'Yaql.Props.C01Rules.rules_reset_sequential',
+                     'Yaql.Props.C01Rules.lookbehind_not_isolated', 'Yaql.Props.C01Rules.lookbehind_sandwich']
 TRUSTED = ['ply.lex.Lexer.token reads nothing but the lexer object it is called on (lexdata, lexpos) and the '
            'immutable compiled rule tables shared by clones',
            'ply LRParser.parse keeps its stacks in locals',
@@ -48,12 +50,50 @@ def make_engine():
 
 
 _fresh_cache = {}
+_ref = dict(engine=None, history=[])
+STRICT = set(SHORT + LONG)
+
+
+def fresh_strict(text):
+    """the outcome of `text` on an engine created for this one parse"""
+    return treeutil.parse_outcome(make_engine(), text)
 
 
 def fresh(text):
+    """what `text` gives when parsed alone.  For the fixed texts: on an engine created for this one parse.  For the
+    thousands of generated texts an engine costs too much each: they go one after another through a reference engine that
+    nothing else uses and that is replaced every 200 texts; whenever an outcome under test differs from this reference the
+    verdict is taken against a really fresh engine (`confirm`), so a failure is always 'differs from a fresh engine'."""
     if text not in _fresh_cache:
-        _fresh_cache[text] = treeutil.parse_outcome(make_engine(), text)
+        if text in STRICT:
+            _fresh_cache[text] = fresh_strict(text)
+        else:
+            if _ref['engine'] is None or len(_ref['history']) >= 200:
+                _ref['engine'], _ref['history'] = make_engine(), []
+            _ref['history'].append(text)
+            _fresh_cache[text] = treeutil.parse_outcome(_ref['engine'], text)
     return _fresh_cache[text]
+
+
+def confirm(text, res):
+    """called when an outcome under test differs from fresh(text): make sure fresh(text) is what a really fresh engine
+    gives (else the REFERENCE engine depended on its history: that is a failure of its own, reported here)"""
+    strict = fresh_strict(text)
+    if strict != _fresh_cache.get(text, strict):
+        hist = list(_ref['history'])
+        k = hist.index(text) if text in hist else len(hist) - 1
+        hist = hist[:k + 1]
+        small = hist
+        for n in (1, 2, 4, 8, 16, 32, 64, 128):       # the shortest recent history that still shows it
+            e = make_engine()
+            outs = [treeutil.parse_outcome(e, t) for t in hist[-n - 1:]]
+            if outs[-1] != strict:
+                small = hist[-n - 1:]
+                break
+        res.fail('oracle', 'history-dependence', 'parse of %r on an engine that parsed %d other texts before gave %r, a '
+                 'fresh engine gives %r' % (text, len(small) - 1, _fresh_cache[text], strict), dict(kind='history', texts=small))
+        _fresh_cache[text] = strict
+    return strict
 
 
 def install_points(get_sched):
@@ -84,6 +124,152 @@ def count_steps(engine, text):
     finally:
         lex.Lexer.token = orig
     return n[0] + 1
+
+
+def token_class(tok, data):
+    """the class of one fetched token, as fine as the lexer's own vocabulary: one class per operator symbol / bracket /
+    comma, one per literal kind (integer and decimal numerals, the three quote styles, bare and named `$`, words, calls,
+    each keyword constant), end of input, and 'a lexical error was raised by this fetch'"""
+    if tok is None:
+        return 'EOF'
+    ty = tok.type
+    if ty == 'NUMBER':
+        return 'NUMBER:' + type(tok.value).__name__
+    if ty == 'QUOTED_STRING':
+        return 'STRING:' + data[tok.lexpos:tok.lexpos + 1]
+    if ty == 'DOLLAR':
+        return 'DOLLAR:' + ('bare' if tok.value == '$' else 'named')
+    if ty in ('KEYWORD_STRING', 'FUNC', 'TRUE', 'FALSE', 'NULL'):
+        return ty
+    return 'OP:' + str(tok.value)
+
+
+_stream_cache = {}
+_stream_engine = []
+
+
+def fetch_stream(text):
+    """classes of the tokens a parse of `text` fetches, in order, when nothing else runs (on an engine kept for this
+    purpose); the parse passes len(stream) + 1 scheduling points.  Only used to aim schedules and to account coverage."""
+    if text in _stream_cache:
+        return _stream_cache[text]
+    from ply import lex
+    out = []
+    orig = lex.Lexer.token
+
+    def token(self):
+        try:
+            t = orig(self)
+        except Exception:       # noqa - the fetch itself raised (a lexical error)
+            out.append('LEXERR')
+            raise
+        out.append(token_class(t, self.lexdata))
+        return t
+    if not _stream_engine:
+        _stream_engine.append(make_engine())      # used for nothing else, one text after another
+    lex.Lexer.token = token
+    try:
+        treeutil.parse_outcome(_stream_engine[0], text)
+    finally:
+        lex.Lexer.token = orig
+    _stream_cache[text] = out
+    return out
+
+
+def vocabulary():
+    """spellings of every token class of the live default grammar: every operator symbol of the factory's operator list,
+    brackets and comma, and one spelling per literal kind; -> (atoms, classes spelled, ply token types never produced)"""
+    import yaql
+    fac = yaql.YaqlFactory()
+    atoms = []
+    for r in fac.operators:
+        if len(r) > 1:
+            atoms.append({'[]': '[', '{}': '{'}.get(r[0], r[0]))
+    atoms += [']', '}', '(', ')', ',', '1', '1.5', 'a', 'true', 'false', 'null', '$', '$x', "'s'", '"d"', '`v`', 'f(',
+              '#', '__x']
+    atoms = list(dict.fromkeys(atoms))
+    lx = fac.create().lexer
+    classes, types = [], set()
+    for a in atoms:
+        c = lx.clone()
+        c.input(a)
+        try:
+            t = c.token()
+        except Exception:       # noqa
+            classes.append('LEXERR')
+            continue
+        types.add(t.type)
+        classes.append(token_class(t, a))
+    classes = list(dict.fromkeys(classes + ['EOF']))
+    declared = set(getattr(lx, 'lextokens_all', None) or lx.lextokens) | set(lx.lexliterals or ())
+    return atoms, classes, sorted(declared - types)
+
+
+VALUE_ATOMS = ['1', '1.5', 'a', 'true', 'false', 'null', '$', '$x', "'s'", '"d"', '`v`']
+FORMS = ['%s', '%s %s', '%s %s %s', 'f(%s)', 'f(%s, %s)', '[%s, %s]', '{%s => %s}', '$.%s', '$?.%s', '%s.%s', '%s.f(%s)',
+         '(%s)', '%s[%s]', 'f(a => %s)', '- %s', 'not %s']
+
+
+def text_pool(rng, atoms, n_random):
+    """short texts over the whole vocabulary: every atom alone, every ordered pair of atoms, and random fillings of
+    small grammatical forms with atoms (so that every token class is also fetched deep inside valid texts)"""
+    texts = list(atoms)
+    texts += [a + ' ' + b for a in atoms for b in atoms]
+    for _ in range(n_random):
+        f = rng.choice(FORMS)
+        k = f.count('%s')
+        fill = tuple(rng.choice(atoms) if rng.random() < 0.5 else rng.choice(VALUE_ATOMS) for _ in range(k))
+        texts.append(f % fill)
+    for a in atoms:
+        for f in FORMS:
+            k = f.count('%s')
+            for slot in range(k):
+                fill = [rng.choice(VALUE_ATOMS) for _ in range(k)]
+                fill[slot] = a
+                texts.append(f % tuple(fill))
+    return list(dict.fromkeys(texts))
+
+
+class PairCoverage:
+    """which token classes met at a thread switch: `cross[X][Y]` = Y was fetched by one parse directly after ANOTHER parse
+    of the same engine fetched X; `sandwich[(X, Y)]` = one parse fetched X and then Y with fetches of another parse in between"""
+
+    def __init__(self, classes):
+        self.classes = list(classes)
+        self.cross = set()
+        self.sandwich = set()
+
+    def note(self, texts, trace):
+        seen = [0] * len(texts)
+        last = None                 # (thread, class) of the globally previous fetch
+        own_prev = [None] * len(texts)      # (class, foreign fetch since?)
+        for i in trace:
+            r = seen[i]
+            seen[i] += 1
+            if r == 0:
+                continue            # the release that starts the parse (runs up to its first fetch)
+            st = fetch_stream(texts[i])
+            if r - 1 >= len(st):
+                continue
+            c = st[r - 1]
+            if last is not None and last[0] != i:
+                self.cross.add((last[1], c))
+            if own_prev[i] is not None and own_prev[i][1]:
+                self.sandwich.add((own_prev[i][0], c))
+            own_prev[i] = [c, False]
+            for j in range(len(texts)):
+                if j != i and own_prev[j] is not None:
+                    own_prev[j][1] = True
+            last = (i, c)
+
+    def report(self, reachable):
+        cl = self.classes
+        want = [(x, y) for x in cl for y in cl if x in reachable and y in reachable and x != 'LEXERR']
+        missing = [p for p in want if p not in self.cross]
+        return dict(classes=cl, cross_pairs_wanted=len(want), cross_pairs_hit=len(want) - len(missing),
+                    cross_pairs_missing=['%s -> %s' % p for p in missing[:20]],
+                    sandwiched_bigrams=len(self.sandwich),
+                    matrix={x: ''.join('#' if (x, y) in self.cross else '.' for y in cl) for x in cl})
 
 
 STYLES = ['plain', 'options', 'copy']
@@ -164,10 +350,22 @@ def run(env, res):
     uninstall = install_points(lambda: cur[0])
     try:
         engine = make_engine()
-        steps = {t: count_steps(engine, t) for t in pool}
+        atoms, classes, unspelled = vocabulary()
+        cover = PairCoverage(classes)
+        gen_texts = text_pool(common.make_rng(env['seed'], 'C01-pool'), atoms, 400 if tier == 'quick' else 3000)
 
-        def check_case(texts, schedule, exhaustive, styles=None):
+        class Steps(dict):
+            def __missing__(self, t):
+                self[t] = len(fetch_stream(t)) + 1
+                return self[t]
+        steps = Steps()
+
+        def check_case(texts, schedule, exhaustive, styles=None, family=None):
             s, results = run_schedule(engine, texts, schedule, cur, styles)
+            if hasattr(s, 'trace'):
+                cover.note(texts, s.trace)
+            if family:
+                stats[family] = stats.get(family, 0) + 1
             switches = sum(1 for a, b in zip(s.trace, s.trace[1:]) if a != b) if hasattr(s, 'trace') else 0
             res.case(('s', tuple(texts), tuple(schedule), tuple(styles or ())), nontrivial=len(set(texts)) > 1 and switches >= 2,
                      sample=dict(kind='schedule', texts=texts, schedule=schedule, styles=styles)
@@ -179,6 +377,8 @@ def run(env, res):
                 return False
             for i, t in enumerate(texts):
                 want = ('ret', fresh(t))
+                if results[i] != want:
+                    want = ('ret', confirm(t, res))
                 if results[i] != want:
                     report('oracle', 'interference',
                            'thread %d parsing %r under schedule %r (other texts %r) got %r; alone on a fresh engine: %r'
@@ -192,10 +392,50 @@ def run(env, res):
                 if c.get('kind') == 'schedule':
                     check_case(c['texts'], c['schedule'], False, c.get('styles'))
         elif not res.failures:
-            # exhaustive: 2 threads x short texts
-            pairs = list(itertools.product(SHORT, SHORT))
+            # (b1) DIRECTED: every ordered pair (X, Y) of token classes of the vocabulary meets at a switch point - one parse
+            # fetches X, the very next fetch on the engine is Y by another parse (each class carried by a text drawn from
+            # the generated pool, at whatever depth of the text it occurs), the remainder of both parses interleaved at
+            # random.  So whatever one token fetch leaves behind for the next one - for whichever pair of token kinds - is
+            # seen by a parse it does not belong to.
+            carriers = {}
+            for t in gen_texts:
+                for idx, c in enumerate(fetch_stream(t)):
+                    lst = carriers.setdefault(c, [])
+                    if len(lst) < 60 or rng.random() < 0.05:
+                        lst.append((t, idx))
+            reachable = set(carriers)
+            rounds = 1 if tier == 'quick' else 6
+            order = [(x, y) for x in classes for y in classes if x in reachable and y in reachable and x != 'LEXERR']
+            for rnd in range(rounds):
+                rng.shuffle(order)
+                for n_pair, (x, y) in enumerate(order):
+                    if res.failures:
+                        break
+                    ta, p_ = rng.choice(carriers[x])
+                    tb, q_ = rng.choice(carriers[y])
+                    head = [0] * (p_ + 1) + [1] * (q_ + 1) + [0, 1]
+                    rest = [0] * max(0, steps[ta] - p_ - 2) + [1] * max(0, steps[tb] - q_ - 2)
+                    texts = [ta, tb]
+                    if rnd % 2 == 1 and n_pair % 3 == 0:       # a third parse running along once X and Y have met
+                        tc = rng.choice(gen_texts)
+                        texts.append(tc)
+                        rest += [2] * steps[tc]
+                    rng.shuffle(rest)
+                    schedule = head + rest
+                    check_case(texts, schedule, False, [STYLES[n_pair % 3], STYLES[(n_pair // 3) % 3]] + ['plain'] * (len(texts) - 2),
+                               family='schedules_directed_pairs')
+            # (b2) exhaustive: 2 threads x short texts (the fixed ones and generated ones that together spell every class)
+            short_gen = []
+            uncovered = set(reachable)
+            for t in sorted(gen_texts, key=lambda t: (steps[t], t)):
+                st = set(fetch_stream(t))
+                if steps[t] <= 5 and st & uncovered:
+                    short_gen.append(t)
+                    uncovered -= st
+            short_all = list(dict.fromkeys(SHORT + short_gen))
+            pairs = list(itertools.product(short_all, short_all))
             rng.shuffle(pairs)
-            budget = 6000 if tier == 'quick' else 120000
+            budget = 3000 if tier == 'quick' else 120000
             done = 0
             for a, b in pairs:
                 if done >= budget or res.failures:
@@ -217,12 +457,21 @@ def run(env, res):
                 for schedule in sched.interleavings([steps[x] for x in tr]):
                     if not check_case(list(tr), schedule, True):
                         break
-            # random schedules over long texts, 2-3 threads
+            # random schedules over long texts, 2-3 threads; half of the texts are drawn from the whole vocabulary (token
+            # soups and fillings of grammatical forms), the other half from the fixed pool
+            def long_text():
+                if rng.random() < 0.5:
+                    return ' '.join(rng.choice(atoms) for _ in range(rng.randrange(3, 12)))
+                parts = []
+                for _ in range(rng.randrange(2, 5)):
+                    f = rng.choice(FORMS)
+                    parts.append(f % tuple(rng.choice(VALUE_ATOMS + atoms[:6]) for _ in range(f.count('%s'))))
+                return (' %s ' % rng.choice(['+', 'and', '.', '?.', '->', '=', 'in', ','])).join(parts)
             for _ in range(300 if tier == 'quick' else 6000):
                 if res.failures:
                     break
                 k = rng.choice([2, 2, 3])
-                texts = [rng.choice(pool) for _ in range(k)]
+                texts = [rng.choice(pool) if rng.random() < 0.5 else long_text() for _ in range(k)]
                 schedule = [i for i, t in enumerate(texts) for _ in range(steps[t])]
                 rng.shuffle(schedule)
                 check_case(texts, schedule, False, [rng.choice(STYLES) for _ in texts])
@@ -337,6 +586,10 @@ def run(env, res):
 
     res.traces = stats['histories'] + stats['schedules_exhaustive'] + stats['schedules_random']
     res.extra['distribution'] = stats
+    if 'cover' in dir():
+        res.extra['histogram'] = dict(token_class_pairs_at_switch_points=cover.report(reachable if 'reachable' in dir() else set()),
+                                      token_types_of_the_grammar_never_spelled=unspelled,
+                                      generated_texts=len(gen_texts))
     res.extra['exhaustive'] = False
     res.extra['steps_per_text'] = {t: steps[t] for t in SHORT} if 'steps' in dir() else {}
     return res
